@@ -237,6 +237,12 @@ func (s *StateMachine) CheckSignature(tx *lib.Transaction, authorizedSigners [][
 	if e != nil {
 		return nil, ErrInvalidPublicKey(e)
 	}
+	// accept only the canonical encoding of the key: an alternative encoding of the same key (e.g. an
+	// Ethereum key with the 0x04 prefix) yields different transaction bytes, hence a new transaction
+	// hash, for the same signed content
+	if !bytes.Equal(publicKey.Bytes(), tx.Signature.PublicKey) {
+		return nil, ErrInvalidPublicKey(errors.New("non-canonical public key encoding"))
+	}
 	// Legacy "RLP" was historically an ordinary memo for non-Ethereum keys.
 	// RLP.V2 is reserved and always requires an Ethereum key.
 	_, hasEthPubKey := publicKey.(*crypto.ETHSECP256K1PublicKey)
